@@ -826,6 +826,95 @@ fn hoisted_targets(rep: &mut Report) {
     }
 }
 
+/// A database that knows a migration the bundled one does not (the documented "Roblox added a migration, use an updated
+/// database" situation): Folder gains `VerifOldId` (ContentId) migrating to `VerifNewContent` (Content), and the same pair
+/// with names that sort the other way round. With that database on both sides, in both codecs: a legacy value alone comes
+/// back migrated under the new name; next to an explicit new value the explicit one wins, whatever the insertion order.
+pub fn added_migration(rep: &mut Report, prefix: &str) {
+    use rbx_reflection::{DataType as DT, PropertyDescriptor, PropertyKind as PK, PropertySerialization as PS};
+    let db = rbx_reflection_database::get();
+    let template = match &db.classes["ImageLabel"].properties.get("Image").map(|d| d.kind.clone()) {
+        Some(PK::Canonical { serialization: PS::Migrate(m) }) => m.clone(),
+        _ => {
+            rep.notes.push("added_migration: ImageLabel.Image is not a migration at this version; leg skipped".into());
+            return;
+        }
+    };
+    let mut db2 = db.clone();
+    let pairs = [("VerifOldId", "VerifNewContent"), ("VerifZOldId", "VerifANewContent")];
+    {
+        let folder = db2.classes.get_mut("Folder").expect("Folder");
+        for (old, new) in pairs {
+            let mut m = template.clone();
+            m.new_property_name = new.to_owned();
+            let mut od = PropertyDescriptor::new(old, DT::Value(VariantType::ContentId));
+            od.kind = PK::Canonical { serialization: PS::Migrate(m) };
+            let mut nd = PropertyDescriptor::new(new, DT::Value(VariantType::Content));
+            nd.kind = PK::Canonical { serialization: PS::Serializes };
+            folder.properties.insert(old.into(), od);
+            folder.properties.insert(new.into(), nd);
+            folder.default_properties.insert(new.into(), Variant::Content(Content::none()));
+        }
+    }
+    let db2: &'static rbx_reflection::ReflectionDatabase<'static> = Box::leak(Box::new(db2));
+    let no = |_: Ref| J::Null;
+    for (old, new) in pairs {
+        for case in ["legacy-only", "explicit-first", "legacy-first"] {
+            let legacy = Variant::ContentId("rbxassetid://1".into());
+            let explicit = Variant::Content(Content::from_uri("rbxassetid://2"));
+            let mut b = InstanceBuilder::new("Folder").with_name("x");
+            match case {
+                "legacy-only" => b.add_property(old, legacy.clone()),
+                "explicit-first" => {
+                    b.add_property(new, explicit.clone());
+                    b.add_property(old, legacy.clone());
+                }
+                _ => {
+                    b.add_property(old, legacy.clone());
+                    b.add_property(new, explicit.clone());
+                }
+            }
+            let want = canon::value(&if case == "legacy-only" { Variant::Content(Content::from_uri("rbxassetid://1")) } else { explicit.clone() }, &no);
+            // a sibling that carries nothing, and one that carries the other combination, so that columns exist either way
+            let dom = WeakDom::new(InstanceBuilder::new("DataModel").with_child(b).with_child(InstanceBuilder::new("Folder").with_name("bare")));
+            let roots = dom.root().children().to_vec();
+            let replay = json!({"cmd": "c16", "part": "added-migration", "pair": old, "case": case});
+            for fmt in ["binary", "xml"] {
+                rep.evaluations += 1;
+                rep.count(&format!("added_migration.{}.{}", fmt, case));
+                let res = catch(|| -> Result<(Option<J>, bool), String> {
+                    let mut v = vec![];
+                    let d = if fmt == "binary" {
+                        rbx_binary::Serializer::new().reflection_database(db2).serialize(&mut v, &dom, &roots).map_err(|e| format!("write: {}", e))?;
+                        rbx_binary::Deserializer::new().reflection_database(db2).deserialize(&v[..]).map_err(|e| format!("read: {}", e))?
+                    } else {
+                        rbx_xml::to_writer(&mut v, &dom, &roots, rbx_xml::EncodeOptions::new().reflection_database(db2)).map_err(|e| format!("write: {}", e))?;
+                        rbx_xml::from_reader(&v[..], rbx_xml::DecodeOptions::new().reflection_database(db2)).map_err(|e| format!("read: {}", e))?
+                    };
+                    let k = d.root().children().first().and_then(|r| d.get_by_ref(*r)).ok_or("no instance")?;
+                    Ok((k.properties.get(&rbx_dom_weak::ustr(new)).map(|v| canon::value(v, &no)), k.properties.contains_key(&rbx_dom_weak::ustr(old))))
+                });
+                let bad = match &res {
+                    Ok(Ok((got, legacy_left))) => {
+                        if got.as_ref() != Some(&want) {
+                            Some(format!("{} reads back as {:?}, expected {}", new, got.as_ref().map(|j| j.to_string()), want))
+                        } else if *legacy_left {
+                            Some(format!("the legacy property {} is still there after the round trip", old))
+                        } else {
+                            None
+                        }
+                    }
+                    Ok(Err(e)) => Some(e.clone()),
+                    Err(p) => Some(format!("panic: {}", p.msg)),
+                };
+                if let Some(what) = bad {
+                    rep.violation(&format!("{}:added-migration:{}:{}", prefix, fmt, case), &format!("{} Folder.{} -> {} ({}): {}", fmt, old, new, case, what), replay.clone(), J::Null);
+                }
+            }
+        }
+    }
+}
+
 pub fn main(a: &Args) {
     let shard = a.u64("shard", 0);
     let nshards = a.u64("nshards", 1);
@@ -837,6 +926,7 @@ pub fn main(a: &Args) {
         lua_copy(&mut rep, &repo);
         custom_database(&mut rep);
         hoisted_targets(&mut rep);
+        added_migration(&mut rep, "C16");
         reserialize(&mut rep);
     }
     default_instances(&mut rep, shard, nshards);
